@@ -331,7 +331,11 @@ PROP = {
         "GunYu.Props.C16.aofSync_uses_gen",
     ],
     "expected_facts": {"c16_gap_threshold": 10485760, "c16_codes": EXPECTED_CODES, "c16_calls": EXPECTED_CALLS, "c16_cmd": EXPECTED_CMD,
-                       "c16_runcluster": EXPECTED_RUNCLUSTER, "c16_idsrc": EXPECTED_IDSRC},
+                       "c16_runcluster": EXPECTED_RUNCLUSTER, "c16_idsrc": EXPECTED_IDSRC,
+                       # process-global state reached from the property's code (DIMENSION_AUDIT): the metric vectors of replica.go (written
+                       # concurrently by every handler / follower: label = input id) and the one process-wide option channel.go reads
+                       "c16_globals": ["channel.go reads config.GetSyncerConfig().Channel.VerifyCrc", "replica.go var followerOffsetGauge",
+                                       "replica.go var followerRecvData", "replica.go var leaderSendData"]},
     "harness": [{"name": "C16", "pkg": "./syncer/", "test": "TestVerifC16",
                  "timeout_quick": "30m", "timeout_thorough": "60m"},
                 {"name": "C16ids", "pkg": "./syncer/", "test": "TestVerifC16Ids",
@@ -435,7 +439,20 @@ PROP = {
             "(hash of the round) the leader's STREAM reader is opened as StoreChannel.NewReader does under channel.verifyCrc: true "
             "(storer.GetReader(off, true); snapshot readers stay unverified: the oracle's snapshots carry no CRC64 footer), so that every "
             "segment it follows into across a rotation (LogSize 40/64/200), closed or still being written, passes through the CRC "
-            "check first; counter leader_verifycrc; witness corpus/C16/verifycrc_live_segment.txt",
+            "check first; counter leader_verifycrc; witness corpus/C16/verifycrc_live_segment.txt. Dimension audit (end of session 5), every drawn "
+            "option value counted as cfg_<option>_<value> in the evidence: leader / follower backend (cfg_*_backend_d/m), LogSize "
+            "(cfg_logsize_40/64/200/1048576), channel.verifyCrc on/off on the leader's disk cache (cfg_verifycrc_1/0) with verifying STREAM "
+            "and now also SNAPSHOT readers (the oracle's generated snapshots end with a valid little-endian CRC64 footer; "
+            "cfg_verifycrc_stream_reader / _snapshot_reader; hand-written corpus snapshots are refused by the verifying reader and served by "
+            "the plain one: verifycrc_snapshot_refused), chunking (cfg_chunk_as_read / upto_<n> / forced pieces of EXACTLY LogSize, LogSize+1 "
+            "and LogSize-16 bytes: Split < 0), a follower process restarted between the announcement (META) and the first chunk "
+            "(forced: cut=2 then Restart; cut_after_meta_then_restart), and TWO followers at once on one leader (twoFollowers: one real "
+            "ServiceReplica behind a plain gRPC server, a disk and a memory follower running concurrently — one empty, one holding a "
+            "prefix —, the leader's input appending and rotating meanwhile, disk leader with verifyCrc readers and in half of the runs "
+            "MaxSize = 6 x LogSize with real collector passes (storer.gcLog) between the appends: monitors only — contiguous, "
+            "byte-identical to the history at the offsets held, both at the leader's end; counters two_followers_runs, "
+            "leader_collector_pass_during_transfer, cfg_leader_maxsize_small). Source fact c16_globals: the package-level metric "
+            "vectors of replica.go and the one process-wide option syncer/channel.go reads (Channel.VerifyCrc)",
     "trusted": ["grpc-go on loopback TCP between the real Run and the real ServiceReplica (no fake transport); the harness's stream wrapper, "
                 "WaitCloser/Logger wrappers of the follower and Input/Channel wrappers of the leader",
                 "history oracle of the harness (two run ids differ at every offset) and its file parser for the disk backend",
@@ -562,6 +579,11 @@ PROP = {
                     "the follower's own Stop() in the middle of a transfer is generated since session 5 (fs=<k>) and modelled as a cut after the "
                     "messages that were out, with the observed loss (ReplicaFollower.Stop closes the wait and the connection: the receive "
                     "loop ends like on a transport failure, the writers are closed without draining the pipe; Run returns nil)",
+                    "dimensions still NOT drawn (audit): a leader that is itself in the middle of a FULLRESYNC (its snapshot writer still open "
+                    "while a follower's snapshot reader tails the growing file: readers of a snapshot being written are never verified and "
+                    "never generated here; C05's harness opens them); the collector running inside ONE modelled session (MaxSize is small "
+                    "only in the two-followers scenario, which has monitors but no model op); verifyCrc on the FOLLOWER side is moot (a "
+                    "follower opens no reader); max-int64 offsets (int64 wrap-around of followerOffset-sp.Offset is not modelled)",
                     "not generated: back-pressure of the follower's pipe is not forced "
                     "(transfers above the pipe size are generated, but the real writers drain it quickly); the syncer's channel shared between the "
                     "follower and leader roles of one process: NewSyncer creates a NEW channel object per syncer (source fact c16_runcluster "
